@@ -299,7 +299,10 @@ func (g *mdGen) block(d int) string {
 	case x == 9:
 		return "---"
 	case x == 10:
-		return "<div class=\"block\">\nraw *html* block\n</div>"
+		// HTML blocks of every kind: those that end at a blank line (kind 6) and those that end with a line of their own - a script, a
+		// pre, a style, a comment of several lines, a processing instruction, a declaration
+		return []string{"<div class=\"block\">\nraw *html* block\n</div>", "<script>\nvar x = 1 < 2;\n\nmore();\n</script>", "<pre>\ncode *not em*\n\nmore\n</pre>",
+			"<style>\np > b { color: red }\n</style>", "<!-- a\nmulti-line *comment*\n\nwith a blank line -->", "<?php\necho 1;\n?>", "<!DOCTYPE html>", "<script>one line</script>"}[g.r.Intn(8)]
 	default:
 		return g.para()
 	}
